@@ -618,6 +618,27 @@ func runC05History(ctx *Ctx, p int, firstOp int) {
 			ctx.Violate("C05/history-residue-"+which, ex)
 			continue
 		}
+		// a loaded trie is a trie: what it marshals must load again and answer
+		// the same (in particular when it came from a historical layout)
+		if state >= 0 && si%4 == 0 {
+			var b []byte
+			var merr error
+			pvm, _ := try(func() { b, merr = st.Marshal() })
+			if pvm == nil && merr == nil {
+				again, lerr, pvl, stackl := loadTrie(encode.I32{}, b)
+				if pvl != nil || lerr != nil {
+					ctx.Violate("C05/remarshalled-stream-does-not-load", map[string]interface{}{"sequence": names, "pool": p, "final_stream": pool.names[state],
+						"error": fmt.Sprint(lerr), "panic": fmt.Sprint(pvl), "stack": stackl})
+					continue
+				}
+				d2 := digestAll(again, pool.qs, pool.starts, false)
+				if which := want.diff(d2, false); which != "" {
+					ctx.Violate("C05/remarshalled-stream-answers-differ", map[string]interface{}{"sequence": names, "pool": p, "final_stream": pool.names[state], "component": which})
+					continue
+				}
+				ctx.Count("remarshalled_and_reloaded:"+strings.SplitN(pool.names[state], "-", 2)[0], 1)
+			}
+		}
 		if len(seq) >= 2 {
 			ctx.Nontrivial(mix(uint64(p)*1000003+uint64(si), uint64(firstOp)))
 		}
@@ -1352,7 +1373,7 @@ func init() {
 			}
 			return 3000
 		},
-		Gates: shapeGates("rebuilds_compared", "roundtrips_equal:Unmarshal", "roundtrips_equal:proto.Unmarshal", "histories", "final_state:empty", "final_state:after_failed_load", "final_state:loaded",
+		Gates: shapeGates("rebuilds_compared", "roundtrips_equal:Unmarshal", "roundtrips_equal:proto.Unmarshal", "histories", "final_state:empty", "final_state:after_failed_load", "final_state:loaded", "remarshalled_and_reloaded:0.5.10", "remarshalled_and_reloaded:3sec",
 			"shape:with_short_nodes", "shape:with_257bit_nodes", "valkind:str16", "valkind:none"),
 		Exhaustive: func(tier string) bool { return false },
 		Finish: func(tier string, m *Merged, cov map[string]interface{}) {
